@@ -5,6 +5,7 @@
 (* may use.                                                                   *)
 EXTENDS S3Gw
 CONSTANTS Mode,       \* "plain" (no versioning calls) | "versioned" | "burst" (only writes: put / delete)
+                      \* | "history" (every word over put / delete / toggle versioning / delete-newest-by-id on one key)
           PreExisting, \* TRUE: the bucket starts with an object written before versioning was enabled
           InitBucket, InitKey, InitContent   \* the bucket that exists initially / the pre-existing object
 
@@ -14,7 +15,7 @@ AContent == InitContent
 
 Init ==
     /\ bkts = [b \in Buckets |-> IF b = TheBucket
-                 THEN [owner |-> "root", ver |-> IF Mode \in {"versioned", "burst"} /\ ~PreExisting THEN "Enabled" ELSE "Unset",
+                 THEN [owner |-> "root", ver |-> IF Mode \in {"versioned", "burst", "history"} /\ ~PreExisting THEN "Enabled" ELSE "Unset",
                        lock |-> FALSE, tags |-> "-", policy |-> "-"]
                  ELSE NoBucket]
     /\ objs = [bk \in Buckets \X Keys |-> IF PreExisting /\ bk = <<TheBucket, AKey>>
@@ -55,7 +56,20 @@ OpAll ==
           \* a tagging request is ignored and the current version is addressed - and none of
           \* the listed properties speaks about it)
 
-Op == IF Mode = "burst" THEN OpBurst ELSE OpAll
+\* history: ONE key, four letters - P put (the content is a function of the position, so the
+\* letter is deterministic), D delete without id, T toggle versioning (Unset / Suspended ->
+\* Enabled, Enabled -> Suspended), X delete the newest entry by its id.  Checked WITHOUT a
+\* view, every word of MaxOps letters is one behaviour: the enumeration of all histories
+\* of that length (suspend / re-enable cycles, markers, null versions in every position).
+HistContent == LET cs == SelectSeq(<<"A", "B", "C">>, LAMBDA x : x \in Contents) IN cs[(Len(tr) % Len(cs)) + 1]
+OpHist ==
+    \/ PutObject(TheBucket, AKey, HistContent, "-")
+    \/ Stack(TheBucket, AKey) # <<>> /\ DeleteObject(TheBucket, AKey)
+    \/ PutVersioning(TheBucket, IF bkts[TheBucket].ver = "Enabled" THEN "Suspended" ELSE "Enabled")
+    \/ Stack(TheBucket, AKey) # <<>> /\ bkts[TheBucket].ver # "Unset"
+          /\ DeleteObjectVersion(TheBucket, AKey, Head1(Stack(TheBucket, AKey)).vid)
+
+Op == IF Mode = "burst" THEN OpBurst ELSE IF Mode = "history" THEN OpHist ELSE OpAll
 
 Report == /\ Len(tr) = MaxOps
           /\ PrintT(ToJson([tr |-> tr]))
